@@ -28,7 +28,7 @@ TRUSTED = [
 ]
 ASSUMPTIONS = [
     "pickle and str/float round-trip Python values exactly (observed, not modelled: the comparison is on the values read back)",
-    "a random-replacement buffer is saved before it ever had to replace (its retained set is otherwise random; C11 covers replacement)",
+    "for a random-replacement buffer the retained set at the save is taken from the observation (it is random once the buffer had to replace; C11 covers replacement); its timestamp window (max_queue_size, longer than the buffer when replace_probability < 1) is modelled",
     "loading into a SMALLER buffer keeps the newest (sequential) / first (random-replacement) samples: the code's documented behaviour, the property itself speaks of equal configuration",
 ]
 
@@ -48,12 +48,14 @@ def gen_store(rng):
         kind = rng.choice(["seq", "seq", "rr", "dseq", "drr"])
         cap1 = rng.choice([1, 2, 3, 4, 7])
         cap2 = cap1 if rng.random() < 0.6 else rng.randint(1, cap1)
-        n = rng.choice([0, 1, cap1, cap1, 2 * cap1, 3 * cap1]) if kind in ("seq", "dseq") else rng.randint(0, cap1)
+        n = rng.choice([0, 1, cap1, cap1, 2 * cap1, 3 * cap1])
         t, adds = rng.randint(0, 5), []
         for i in range(n):
             t += rng.choice([0, 0, 1, 1, 2, 5])
             adds.append([i + 1, t])
-        users.append({"kind": kind, "cap1": cap1, "cap2": cap2, "adds": adds, "update_each": rng.random() < 0.3})
+        # random-replacement buffers: with probability < 1 the timestamp window (max_queue_size) is longer than the buffer
+        users.append({"kind": kind, "cap1": cap1, "cap2": cap2, "adds": adds, "update_each": rng.random() < 0.3,
+                      "p": rng.choice([1.0, 1.0, 0.5, 0.25])})
     ts = sorted({t for u in users for _, t in u["adds"]})
     probes = sorted({p for t in ts for p in (t - 1, t, t + 1)} | {-5, 10**6})[:40]
     ck = {"scale": rng.choice([0.5, 1.0, 2.0, 4.0]), "raw_a": float(rng.choice([0, 100, 12345])), "adv1": rng.choice([0.0, 0.5, 3.0, 100.25]),
@@ -115,7 +117,9 @@ def split(case, obs):
             b, a = obs["before"]["users"][i], obs["after"]["users"][i]
             cfg = "{| u_kind := %s; u_cap1 := %s; u_cap2 := %s; u_q1 := %s; u_q2 := %s |}" % (
                 KIND[u["kind"]], cn(u["cap1"]), cn(u["cap2"]), copt(None if b["q"] is None else cn(b["q"])), copt(None if a["q"] is None else cn(a["q"])))
-            out.append(f"(CUser {cfg} {cl(cz(x[0]) for x in u['adds'])} {cl(cz(x[1]) for x in u['adds'])} {cl(cz(p) for p in case['probes'])} {cuobs(b)} {cuobs(a)})")
+            # a random-replacement buffer's retained set is random once it had to replace: the model takes what it held at the save
+            ids = [x[0] for x in u["adds"]] if KIND[u["kind"]] == "KSeq" else b["items"]
+            out.append(f"(CUser {cfg} {cl(cz(x) for x in ids)} {cl(cz(x[1]) for x in u['adds'])} {cl(cz(p) for p in case['probes'])} {cuobs(b)} {cuobs(a)})")
         pairs = whole_pairs(obs)
         af = obs["after"]
         out.append(f"(CWhole {cl(f'({cz(x)}, {cz(y)})' for x, y in pairs)} {q(obs['before']['clock'])} {q(af['clock'])} {q(af['clock_later'])} {q(af['expect_later'])})")
